@@ -14,6 +14,7 @@ TIERS = {
     "C04": T(2000, 30000),
     "C05": T(700, 12000),
     "C09": T(900, 15000),
+    "C12": T(2500, 40000),
     "C13": T(1200, 12000),
     "C14": T(1500, 12000),
     "C15": T(900, 15000),
@@ -43,6 +44,9 @@ ASSUMPTIONS = {
     "C04": ["the harness flushes before injecting a stall notice: the property is about admission, bytes already buffered cannot be recalled",
             "budget-related obligations use the C03 model"],
     "C05": ["preemption only at lock operations / sleeps / thread create-join (scheduler-owned), with an explicit preemption list or a seeded random policy"],
+    "C12": ["the stream is delivered through the read callback with generated poll gaps; only streams up to ~40 items / 700-byte oversized packets",
+            "liveness = at least one of two well-formed probe packets sent after the stream is delivered (a packet directly behind line noise may be merged into the corrupted fragment)",
+            "sanitizer-visible memory errors only (ASan + UBSan, G_SLICE=always-malloc)"],
     "C13": ["files are passed through the library's own fopen of <config_dir>/bidib_*_config.yml, redirected to in-memory "
             "streams; NUL bytes inside a file are not generated",
             "termination is judged by the virtual-time budget and wait-for-cycle detection, never by wall-clock time",
